@@ -189,7 +189,9 @@ Atomic<'a, ItemType, OgreAllocatorType, BUFFER_SIZE, MAX_STREAMS> {
         unsafe { ogre_arc_item.increment_references(running_streams_count) };
         let used_streams = self.streams_manager.used_streams();
         for i in 0..running_streams_count {
+            #[cfg(feature = "verif")] crate::verif::yield_point();
             let stream_id = *unsafe { used_streams.get_unchecked(i as usize) };
+            #[cfg(feature = "verif")] if stream_id == u32::MAX { crate::verif::probe("multi.ogre_arc.fanout.sentinel_skipped"); }
             if stream_id != u32::MAX {
                 let dispatcher_manager = unsafe { self.dispatcher_managers.get_unchecked(stream_id as usize) };
                 match dispatcher_manager.publish_movable(unsafe { ogre_arc_item.raw_copy() }).0 {
